@@ -168,7 +168,7 @@ def gen_params(rng, cls=None):
     elif cls == "small":
         w, l = rng.randint(1, 5), rng.randint(1, 5)
     elif cls == "wide":
-        w, l = rng.randint(6, 40), rng.randint(1, 3)
+        w, l = rng.randint(6, 40 if rng.random() < 0.25 else 14), rng.randint(1, 3)
     else:
         w, l = rng.randint(1, 2), rng.randint(20, 400)
     style = rng.random()
